@@ -11,8 +11,9 @@
 // the instructions that may write shared state:
 //
 //	global      store to a package-level variable of the module (or to something reached from it)
-//	globaladdr  the address of a package-level variable escapes into a call / another object
-//	metafield   store to a field of a struct type declared in package meta (not a fresh local object)
+//	globaladdr  the address of a package-level variable (or of a part of it, "[addr]") escapes into a call / another object
+//	metafield   store to a field of a struct type declared in package meta (not a fresh local object), or
+//	            ("[addr]") the address of such a field escapes into a call / another object
 //	metamap     map update / delete on a map held in a field of a meta type
 //	metaslice   element store / append / copy on a slice held in a field of a meta type
 //	metatype    map or slice of unknown origin whose type mentions meta types
@@ -287,10 +288,29 @@ func (a *analyzer) scan(fn *ssa.Function, emit func(kind, name string, p token.P
 			}
 		}
 	}
+	// the address of a field (or element) of a non-fresh meta object / of a global handed to a
+	// callee or stored away: the holder may write through it (method calls with a value-typed
+	// field as pointer receiver, out-parameters)
+	escapes := func(v ssa.Value, p token.Pos) {
+		switch v.(type) {
+		case *ssa.FieldAddr, *ssa.IndexAddr:
+		default:
+			return
+		}
+		for _, o := range a.originOf(v, map[ssa.Value]bool{}) {
+			switch o.kind {
+			case "global":
+				emit("globaladdr", o.name+"[addr]", p)
+			case "metafield":
+				emit("metafield", o.name+"[addr]", p)
+			}
+		}
+	}
 	for _, b := range fn.Blocks {
 		for _, ins := range b.Instrs {
 			switch ins := ins.(type) {
 			case *ssa.Store:
+				escapes(ins.Val, ins.Pos())
 				what := ""
 				var ct types.Type
 				if ia, ok := ins.Addr.(*ssa.IndexAddr); ok {
@@ -322,6 +342,7 @@ func (a *analyzer) scan(fn *ssa.Function, emit func(kind, name string, p token.P
 					if g, ok := arg.(*ssa.Global); ok && g.Pkg != nil && inModule(g.Pkg.Pkg) {
 						emit("globaladdr", g.Pkg.Pkg.Path()[len(modPath):]+"."+g.Name(), ins.Pos())
 					}
+					escapes(arg, ins.Pos())
 				}
 			case *ssa.MakeInterface:
 				if g, ok := ins.X.(*ssa.Global); ok && g.Pkg != nil && inModule(g.Pkg.Pkg) {
@@ -582,7 +603,12 @@ func main() {
 			}
 			kind := map[string]string{"global": "KGlobal", "globaladdr": "KGlobalAddr", "metafield": "KMetaField",
 				"metamap": "KMetaMap", "metaslice": "KMetaSlice", "metatype": "KMetaType"}[w.Kind]
-			fmt.Fprintf(&b, "  mkW %s %s %s %s %s", cls, kind, coqStr(w.Name), coqStr(w.Func), coqStr(w.Pos))
+			fn, pos := w.Func, w.Pos
+			if w.Class == "load" && strings.HasPrefix(w.Kind, "meta") {
+				// always allowed (Conc/Footprint.v load_allowed); function and position are in the JSON output
+				fn, pos = "", ""
+			}
+			fmt.Fprintf(&b, "  mkW %s %s %s %s %s", cls, kind, coqStr(w.Name), coqStr(fn), coqStr(pos))
 		}
 		b.WriteString("\n] |}.\n")
 		b.WriteString(`
